@@ -635,13 +635,17 @@ impl SubscribeBuilder {
             // send subscribe to client
             log::trace!("Sending subscribe packet {packet:#?}");
 
-            let rx = shared.wait_response(packet.packet_id, AckType::Subscribe)?;
+            let idx = packet.packet_id;
+            let rx = shared.wait_response(idx, AckType::Subscribe)?;
             match shared.encode_packet(codec::Packet::Subscribe(packet)) {
                 Ok(()) => {
                     // wait ack from peer
                     rx.await.map_err(|_| SendPacketError::Disconnected).map(Ack::subscribe)
                 }
-                Err(err) => Err(SendPacketError::Encode(err)),
+                Err(err) => {
+                    shared.cancel_response(idx);
+                    Err(SendPacketError::Encode(err))
+                }
             }
         }
     }
@@ -720,13 +724,17 @@ impl UnsubscribeBuilder {
             // send unsubscribe to client
             log::trace!("Sending unsubscribe packet {packet:#?}");
 
-            let rx = shared.wait_response(packet.packet_id, AckType::Unsubscribe)?;
+            let idx = packet.packet_id;
+            let rx = shared.wait_response(idx, AckType::Unsubscribe)?;
             match shared.encode_packet(codec::Packet::Unsubscribe(packet)) {
                 Ok(()) => {
                     // wait ack from peer
                     rx.await.map_err(|_| SendPacketError::Disconnected).map(Ack::unsubscribe)
                 }
-                Err(err) => Err(SendPacketError::Encode(err)),
+                Err(err) => {
+                    shared.cancel_response(idx);
+                    Err(SendPacketError::Encode(err))
+                }
             }
         }
     }
